@@ -23,7 +23,7 @@ ASSUMPTIONS = ['secondary/supplementary alignments are outside the claim (not ge
                'mate number is only compared for pairs whose mates are both mapped to the same contig (the third-party mate iterator de-pairs the others)',
                'worker schedules are sampled: observed completion orders are counted, not enumerated']
 MIN_NONTRIVIAL = {'quick': 40, 'thorough': 1200}
-REQUIRED_MONITORS = ['history:same_path_reused', 'eject:interval_shrunk', 'lib:dense', 'paths:rel', 'paths:dotrel', 'lib:secondary_or_supplementary', 'run:single_process', 'run:multiprocess', 'records:compared', 'jobs:observed', 'run:no_rejects', 'layout:large_after_small',
+REQUIRED_MONITORS = ['history:same_path_reused', 'eject:interval_shrunk', 'lib:dense', 'lib:placed_unmapped_pairs', 'paths:rel', 'paths:dotrel', 'lib:secondary_or_supplementary', 'run:single_process', 'run:multiprocess', 'records:compared', 'jobs:observed', 'run:no_rejects', 'layout:large_after_small',
                      'layout:lone_small_contig', 'lib:unmapped_pairs', 'lib:half_mapped', 'lib:orphans']
 SHARD_TIMEOUT = {'quick': 900, 'thorough': 7200}
 
@@ -57,6 +57,7 @@ def contig_layout(r):
 
 
 DENSE = [False]
+PLACED = [0]
 
 
 def build_library(r, case_id, method):
@@ -151,6 +152,17 @@ def build_library(r, case_id, method):
                 truths[rid] = tr
                 rid += 1
             with_reads.append((name, ln))
+    # pairs flagged unmapped that keep a contig and a coordinate - also on a contig that holds nothing else
+    if r.random() < 0.4:
+        empty = [c for c in contigs if c not in with_reads]
+        for (name, ln) in ([r.choice(empty)] if empty and r.random() < 0.7 else []) + [r.choice(contigs)]:
+            for _ in range(r.randint(1, 3)):
+                recs.extend(F.unmapped_pair(r, rid, case_id, r.randint(1, 3), F.rand_dna(r, 3), place=(gen.tid(name), r.randrange(0, max(1, ln - 40)))))
+                truths[rid] = {'id': rid, 'kind': 'unmapped', 'valid': False}
+                rid += 1
+            if (name, ln) not in with_reads:
+                with_reads.append((name, ln))
+        PLACED[0] += 1
     n_unmapped = r.choice([0, 1, 2, 4, 20])
     for _ in range(n_unmapped):
         recs.extend(F.unmapped_pair(r, rid, case_id, r.randint(1, 3), F.rand_dna(r, 3)))
@@ -184,6 +196,8 @@ def run_case(case):
     method = r.choice(['nla', 'nla', 'chic', 'qflag'])
     gen, recs, truths, style, with_reads = build_library(r, case['i'] + 1, method)
     acc.count('lib:dense', 1 if DENSE[0] else 0)
+    acc.count('lib:placed_unmapped_pairs', PLACED[0])
+    PLACED[0] = 0
     if not recs:
         return acc
     multi = r.random() < 0.6
